@@ -152,7 +152,9 @@ class BlockLinearOperator(LinearOperator):
         # This preserves the block structure
         from linear_operator.operators.constant_mul_linear_operator import ConstantMulLinearOperator
 
-        return self.__class__(ConstantMulLinearOperator(self.base_linear_op, other))
+        # a batch of constants has to line up with the batch dims *before* the block dim of the base operator
+        constant = other.unsqueeze(-1) if torch.is_tensor(other) and other.dim() else other
+        return self.__class__(ConstantMulLinearOperator(self.base_linear_op, constant))
 
     def _transpose_nonbatch(self: Float[LinearOperator, "*batch M N"]) -> Float[LinearOperator, "*batch N M"]:
         base_op = self.base_linear_op
